@@ -187,9 +187,11 @@ MOLS = {
 def e_structures(tier):
     sts = []
     base = [("H2", None, False), ("H2stretch", None, False), ("H3+", None, False), ("H4", None, False), ("H4", [0], False), ("H4", [3], False), ("H4", [0, 3], False), ("H4+", None, False),
-            ("H4+", None, True), ("H2", None, True), ("H4t", None, False), ("LiH", [0, 3, 4, 5], False), ("LiH", 1, False), ("H4+", [[0], [0, 3]], True)]
+            ("H4+", None, True), ("H2", None, True), ("H4t", None, False), ("LiH", [0, 3, 4, 5], False), ("LiH", 1, False), ("H4+", [[0], [0, 3]], True),
+            # UHF, per-spin lists whose frozen OCCUPIED orbitals differ between the spin channels (both non-empty), with and without frozen virtuals
+            ("H4+", [[1], [0]], True), ("H4t", [[0, 2], [0, 3]], True), ("H4t", [[1], [0]], True), ("H4t", [[0, 1], [0]], True), ("H4+", [[0, 3], [0, 2]], True)]
     if tier == "quick":
-        base = [base[i] for i in (0, 3, 4, 6, 7, 8, 11)]
+        base = [base[i] for i in (0, 3, 4, 6, 7, 8, 11, 14, 15)]
     for mol, fz, uhf in base:
         for mapping in ("JW", "BK", "scBK", "JKMN"):
             for utd in (False, True):
